@@ -58,10 +58,10 @@ def run(pid, tier, seed, replay):
             runs = []
         else:
             raise vlib.CannotRun("interpdrv failed (%s):\n%s" % (mode, p0.stdout[-3000:]))
-    if tier == "thorough" and pid == "C10":
+    if pid == "C10":
         rdrv = vlib.build_driver("interpdrv", wd, race=True)
         o2 = os.path.join(wd, "iso_race.ndjson")
-        p = vlib.run([rdrv, "iso", "300", str(seed + 1), o2], env=dict(os.environ, GORACE="halt_on_error=0"), timeout=7000, check=False)
+        p = vlib.run([rdrv, "iso", "60" if tier == "quick" else "300", str(seed + 1), o2], env=dict(os.environ, GORACE="halt_on_error=0"), timeout=7000, check=False)
         if "WARNING: DATA RACE" in p.stdout:
             rep.reject("data race reported while one compiled program is executed from many goroutines", [], {"property": pid, "race": p.stdout[-3000:]})
         runs.append(("iso-race", o2))
